@@ -71,8 +71,11 @@ fn run_seq_grow(reader: bool, size: u16, chunk: usize, src: &[u8], src_path: &Pa
             match *op {
                 Op::Fill if !reader => {
                     // the handle of a receiving window cannot be read: whatever fill() returns, it must not change
-                    // what is buffered (the comparison with the model below sees a phantom piece)
-                    let _ = win.fill();
+                    // what is buffered (the comparison with the model below sees a phantom piece).
+                    // (Miri cannot represent the EBADF of that read, so the step is left out of the Miri slice.)
+                    if !cfg!(miri) {
+                        let _ = win.fill();
+                    }
                 }
                 Op::Fill => {
                     let r = win.fill().map_err(|e| format!("fill failed: {e}"))?;
